@@ -4,7 +4,7 @@ from vlib import conclab
 PROPERTY = 'C04'
 LEVEL = 'exploration'
 RULE = ('actors = {packer: pack_all_loose(compress no/yes/auto, clean_loose_per_pack F/T) + clean_storage, up to 3 cycles} x {readers: single, '
-        'bulk, metadata-only, has_objects, chunked, seeking read of a compressed packed object; fresh or long-open/pinned handle} x {writers: '
+        'bulk, metadata-only, has_objects, chunked, seeking read of a compressed packed object, bulk read with a seeking read on every yielded stream; fresh or long-open/pinned handle; default or shadowed lookup thresholds} x {writers: '
         'new and duplicate content}; switch points = every interposed file-system call and SQL statement. Layer 1 (exhaustive at depth 1): the '
         'whole client operation at EVERY boundary of the packer, and the whole packer cycle at EVERY boundary of each client operation. Layer 2: '
         'client paused at boundary j, packer advanced k1..k2, client finished (scripted on a thread scheduler that runs one actor at a time). '
